@@ -1,5 +1,6 @@
 import Flowjaxv.Driver.Util
 import Flowjaxv.Model.Masks
+import Flowjaxv.Gen.MasksGen
 /-!
 Driver ops for the C09 model (`Model/Masks.lean`).  Boolean matrices are printed row by row as 0/1
 strings separated by `/` (`-` = no rows; an empty row prints as `e`), several matrices separated by `|`.
@@ -17,6 +18,11 @@ strings separated by `/` (`-` = no rows; an empty row prints as `e`), several ma
   coupling <act> <d> <dim> <cond_dim|-1> <width> <depth> <x> <cond> <init> (<W_l flat> <b_l>)×(depth+1)   (Affine transformer)
   bnaf <act> <dim> <cond_dim|-1> <depth> <block_dim> <x> <cond> <C flat | -> (<W_l flat> <b_l> <scale_raw_l>)×(#layers)
   act ∈ relu | tanh | softplus | id
+
+The same five structural ops evaluated on the definitions GENERATED from the source (`Gen/MasksGen.lean`):
+  gimod (= jmod on `JnpMask.imod`) / grankmask / gblockdiag / gblocktril / gmafranks   (same fields)
+  gmafmasks <dim> <cond_dim | -1> <width> <depth> <num_params>   -> mask_0|…|mask_depth  (generated rank assignment fed to the
+        generated `masked_autoregressive_mlp` on an MLP with `depth + 1` layers; also checks `if_true` = the layer's own weight)
 -/
 namespace Drv
 open Masks
@@ -70,6 +76,43 @@ def mafmasks : Handler
       let ms := mlpMasks (mafInRanks dim c) (mafHiddenRanks dim w c) (mafOutRanks dim np) depth
       pure ("|".intercalate (ms.map showMask))
   | _ => .error "bad mafmasks op"
+
+def gimod : Handler
+  | [a, b] => do pure (toString (JnpMask.imod (← parseInt a) (← parseInt b)))
+  | _ => .error "bad gimod op"
+
+def grankmask : Handler
+  | [i, o, e] => do pure (showMask (Gen.rankBasedMask (← parseInts i) (← parseInts o) (← parseBool e)))
+  | _ => .error "bad grankmask op"
+
+def gblockdiag : Handler
+  | [b0, b1, n] => do pure (showMask (Gen.blockDiagMask (← parseNat b0, ← parseNat b1) (← parseNat n)))
+  | _ => .error "bad gblockdiag op"
+
+def gblocktril : Handler
+  | [b0, b1, n, k] => do
+      pure (showMask (Gen.blockTrilMask (← parseNat b0, ← parseNat b1) (← parseNat n) (← parseInt k)))
+  | _ => .error "bad gblocktril op"
+
+def gmafranks : Handler
+  | [dim, cond, width, np] => do
+      let dim ← parseNat dim; let c ← parseCond cond; let w ← parseNat width; let np ← parseNat np
+      let rk := Gen.mafRanks np dim c w
+      pure s!"{showInts rk.1}|{showInts rk.2.1}|{showInts rk.2.2}"
+  | _ => .error "bad gmafranks op"
+
+def gmafmasks : Handler
+  | [dim, cond, width, depth, np] => do
+      let dim ← parseNat dim; let c ← parseCond cond; let w ← parseNat width
+      let depth ← parseNat depth; let np ← parseNat np
+      let rk := Gen.mafRanks np dim c w
+      -- an `eqx.nn.MLP` with `depth + 1` linear layers; the weight leaf of layer `l` is named `l`
+      let mlp : JnpMask.MLP Nat := { depth := depth, layers := (List.range (depth + 1)).map fun l => ⟨l⟩ }
+      let out := Gen.maskedAutoregressiveMlp mlp rk.1 rk.2.1 rk.2.2
+      if out.layers.map (fun L => L.weight.if_true) ≠ List.range (depth + 1) then .error "if_true is not the layer's own weight"
+      if out.depth ≠ depth then .error "depth changed"
+      pure ("|".intercalate (out.layers.map fun L => showMask L.weight.cond))
+  | _ => .error "bad gmafmasks op"
 
 /-- `mafdeps <dim> <cond_dim|-1> <width> <depth> <num_params>`: Boolean product of the layer masks
 (rows = flat transformer parameters, columns = network inputs `x ++ condition`). -/
